@@ -21,6 +21,7 @@ mod c06;
 mod c07;
 mod c08;
 mod c09;
+mod c10;
 mod c19;
 mod codec;
 
@@ -60,6 +61,7 @@ registry! {
     "C07" => c07::C07,
     "C08" => c08::C08,
     "C09" => c09::C09,
+    "C10" => c10::C10,
 }
 
 fn parse_tier(s: &str) -> Tier {
